@@ -202,6 +202,9 @@ func vHarnessUpdateDID() {
 	st, kind := vStoredState(ctx, k, w, did, ids)
 	wd, wst, whas := vWitness(ctx, k, w, did)
 	newDoc := w.document("new", vNondetAtom("newDocId"), ids, 1, 1)
+	if vValidated {
+		vAssume(newDoc.Id == did && did != "") // consequence of ValidateBasic (unit did-validate)
+	}
 	other := &types.DIDDocument{Id: vNondetAtom("otherSignedId")}
 	vAssume(!vDocEqual(other, newDoc))
 	p := w.proof("proof", newDoc, other)
@@ -224,6 +227,9 @@ func vHarnessUpdateDID() {
 	vCheck(vDocEqual(got.Document, newDoc), "C03: stored document is exactly the submitted one")
 	vCheck(got.Sequence == st.Sequence+1, "C04: sequence grows by exactly one on an accepted update")
 	vCheck(kind != 2, "C05: a deactivated DID is never updated")
+	if vValidated {
+		vCheck(got.Document.Id == did, "C11: the document stored under a DID is about that DID")
+	}
 	vWitnessAfter(ctx, k, wd, wst, whas)
 	// C04 replay: the very same message is rejected against the new state
 	_, err2 := msgServer{k}.UpdateDID(sdk.WrapSDKContext(ctx), msg)
@@ -282,7 +288,9 @@ func vHarnessCreateDID() {
 	p := w.proof("proof", newDoc, other)
 	msg := &types.MsgCreateDIDRequest{Did: did, Document: newDoc, VerificationMethodId: vPickString(vNondetInt("msg.vmid"), ids...), Signature: p.sig, FromAddress: vNondetAddr("from")}
 	if vValidated {
-		vAssume(msg.ValidateBasic() == nil) // BASEAPP-VALIDATE
+		// BASEAPP-VALIDATE, through its consequences proved in unit did-validate:
+		// an accepted create carries a non-empty document id equal to msg.Did
+		vAssume(newDoc.Id == did && did != "")
 	}
 	_, err := msgServer{k}.CreateDID(sdk.WrapSDKContext(ctx), msg)
 	want := kind == 0 && vSpecAuth(newDoc, msg.VerificationMethodId, newDoc, 0, p)
